@@ -25,6 +25,7 @@ type SliceV struct {
 	OrgOff T // offset of this view inside the origin (for reslices)
 	OrgAt  string
 	ElemT  types.Type
+	Src    *Addr // provenance: guarded field whose backing array this value shares (for alias obligations)
 }
 
 func (s *SliceV) at(i T) T { return App(s.Elem, s.At, i) }
@@ -565,8 +566,9 @@ func (e *Engine) readLoc(st *State, base string, ft types.Type, ref T) Val {
 		atSym := e.region(st, base+".at", []Sort{SRef, SInt}, es)
 		i := T{"i!", SInt}
 		at := e.defineFun("row_"+base, []T{i}, es, App(es, atSym, ref, i))
+		org := &Addr{Kind: AField, Region: base, Ref: ref, FieldT: ft}
 		return &SliceV{Len: lenT, At: at, Elem: es, Nil: nilT, ElemT: u.Elem(),
-			Org: &Addr{Kind: AField, Region: base, Ref: ref, FieldT: ft}, OrgOff: IntLit(0), OrgAt: at}
+			Org: org, OrgOff: IntLit(0), OrgAt: at, Src: org}
 	case *types.Struct:
 		if isOpaqueStruct(ft) {
 			so := e.sortOf(ft)
